@@ -1150,3 +1150,63 @@ def check_u2f(reg_paths, auth_paths):
                 F.append(Finding("C17", "u2f.unknown-key-handle-accepted", "U2F authenticate can succeed without the lookup having produced a credential", sc,
                                  lambda o: isinstance(o["result"], dict) and "ok" in o["result"], p))
     return F
+
+
+# ---- C01: the suffix provider is asked about the ASCII RP ID -------------------------------------
+
+IDN_SUFFIXES = ["xn--55qx5d.cn", "xn--io0a7i.cn", "xn--od0alg.cn", "xn--55qx5d.hk", "xn--mgba3a4f16a.ir"]
+
+
+def check_provider_argument(fns, fn_name_needle):
+    """In `assert_valid_rp_id` / `assert_android_rp_id`: every call of
+    EffectiveTLDProvider::effective_tld_plus_one must receive the (ASCII) RP ID it validates, not
+    something derived from `decode_host` (the table is keyed by punycode, per its documentation)."""
+    from .executor import Executor
+    cands = [f for n, f in fns.items() if n.endswith("::" + fn_name_needle)]
+    if len(cands) != 1:
+        raise Shape("cannot identify %s in the MIR (%d candidates)" % (fn_name_needle, len(cands)))
+    fn = cands[0]
+    ps = Executor(fn, follow_yields=False).run()
+    F = []
+    seen_provider = False
+    for p in ps:
+        if p.end and p.end[0] == "unsupported":
+            raise Shape("unsupported MIR in %s: %s" % (fn_name_needle, p.end[1][:160]))
+        dec = [e for e in p.events if e["kind"] == "call" and e["callee"].endswith("decode_host")]
+        # direct calls
+        for e in p.events:
+            if e["kind"] == "call" and e["callee"].endswith("effective_tld_plus_one"):
+                seen_provider = True
+                if dec and any(derives_from(e["args"][1], d["ret"], p) for d in dec):
+                    F.append(Finding("C01", "%s.provider-gets-decoded-name" % fn_name_needle,
+                                     "the suffix provider is asked about the decoded (Unicode) form of the RP ID", {"op": "rp_id_valid", "names": IDN_SUFFIXES},
+                                     lambda o: bool(o["result"].get("accepted")), p))
+        # calls inside closures applied to the decoded value
+        for callee, clo in _closures_in(p):
+            f = _closure_fn(fns, clo)
+            if f is None:
+                continue
+            inner = Executor(f, follow_yields=False).run()
+            uses_param = False
+            for q in inner:
+                for e in q.events:
+                    if e["kind"] == "call" and e["callee"].endswith("effective_tld_plus_one"):
+                        seen_provider = True
+                        if contains(e["args"][1], ("in", "_2")):
+                            uses_param = True
+            if uses_param:
+                # which value is the closure applied to?
+                app = [e for e in p.events if e["kind"] == "call" and any(chase(a) == clo for a in e["args"])]
+
+                def through_ref(t):
+                    t = chase(t)
+                    if t[0] == "ref" and t[1] in p.mem:
+                        return p.mem[t[1]]
+                    return t
+                if app and dec and any(derives_from(through_ref(app[0]["args"][0]), d["ret"], p) for d in dec):
+                    F.append(Finding("C01", "%s.provider-gets-decoded-name" % fn_name_needle,
+                                     "the suffix provider is asked about the decoded (Unicode) form of the RP ID (through a closure applied to decode_host's result)",
+                                     {"op": "rp_id_valid", "names": IDN_SUFFIXES}, lambda o: bool(o["result"].get("accepted")), p))
+    if not seen_provider:
+        raise Shape("%s never consults the suffix provider" % fn_name_needle)
+    return F, len(ps)
